@@ -553,6 +553,7 @@ func runC04(ctx Ctx) int {
 	run.Sample(cases[len(cases)/2])
 	run.Sample(cases[len(cases)-1])
 	finishCapped(run, complete, fmt.Sprintf("%d cases (singles%s)", len(cases), map[bool]string{true: " + all pairs of (field,symbol) for rsa-sha256 callbacks", false: ""}[run.Tier == "thorough"]))
+	runLongRuns(run, "C04")
 	return run.Finish()
 }
 
